@@ -136,9 +136,14 @@ POLY_ONLY = ("LeastSquare.spline2spline", "heavy.eval_spline_nodes", "MathOperat
 
 def _homogeneous_numerators(fi, name: str) -> bool:
     """the function forms `w * P` for every pair of zip(<name>.weights, <name>.ctrlpoints)"""
-    wnames = {name + ".weights"}
+    objs = {name}
     for a in ast.walk(fi.node):
-        if isinstance(a, ast.Assign) and len(a.targets) == 1 and isinstance(a.targets[0], ast.Name) and seg(a.value) == name + ".weights":
+        if isinstance(a, ast.Assign) and len(a.targets) == 1 and isinstance(a.targets[0], ast.Name) and isinstance(a.value, ast.Name) and a.value.id in objs:
+            objs.add(a.targets[0].id)  # `_inl3_other = other`: the operand under the parameter name of an inlined helper
+    wnames = {o + ".weights" for o in objs}
+    pnames = {o + ".ctrlpoints" for o in objs}
+    for a in ast.walk(fi.node):
+        if isinstance(a, ast.Assign) and len(a.targets) == 1 and isinstance(a.targets[0], ast.Name) and seg(a.value) in wnames:
             wnames.add(a.targets[0].id)
     for c in ast.walk(fi.node):
         if isinstance(c, (ast.ListComp, ast.GeneratorExp)) and len(c.generators) == 1:
@@ -148,7 +153,7 @@ def _homogeneous_numerators(fi, name: str) -> bool:
                 t0, t1 = (seg(x) for x in g.target.elts)
                 pairs = {a0: t0, a1: t1}
                 wt = next((t for a, t in pairs.items() if a in wnames), None)
-                pt = next((t for a, t in pairs.items() if a == name + ".ctrlpoints"), None)
+                pt = next((t for a, t in pairs.items() if a in pnames), None)
                 if wt and pt and isinstance(c.elt, ast.BinOp) and isinstance(c.elt.op, ast.Mult) and {seg(c.elt.left), seg(c.elt.right)} == {wt, pt}:
                     return True
     return False
@@ -786,6 +791,18 @@ def form_select(r: R, chk, qual: str, param: str, rule="FORM-SELECT", max_paths:
             return None if x is None else not x
         if isinstance(t, ast.Constant):
             return bool(t.value)
+        if isinstance(t, ast.Compare) and len(t.ops) == 1 and isinstance(t.ops[0], (ast.Is, ast.IsNot)) and isinstance(t.left, ast.Name) \
+                and isinstance(t.comparators[0], ast.Constant) and t.comparators[0].value is None:
+            # `flag is None` where the flag was bound on this path to None (handler) or to a container (the probe succeeded)
+            s = env.get(t.left.id)
+            isnone = None
+            if isinstance(s, tuple) and s[0] == "const":
+                isnone = s[1] is None
+            elif isinstance(s, frozenset) and s and "unk" not in s:
+                isnone = False
+            if isnone is None:
+                return None
+            return isnone if isinstance(t.ops[0], ast.Is) else not isnone
         return None
 
     results = {}  # group -> {shape: example return node}
@@ -2420,7 +2437,7 @@ def iter_once(r: R, chk, qual: str, param: str, rule="ITER-ONCE"):
     conversion of another kind): the later `tuple(param)` would be empty and zero points come back without an error."""
     ctx = r.root(qual)
     fi = ctx.fi
-    mats = [n for n in r.stmt_nodes(ctx) if isinstance(n.ast, ast.Assign) and any(isinstance(t, ast.Name) and t.id == param for t in n.ast.targets) and isinstance(n.ast.value, ast.Call) and seg(n.ast.value.func) in ("tuple", "list") and n.ast.value.args and isinstance(n.ast.value.args[0], ast.Name) and n.ast.value.args[0].id == param]
+    mats = [n for n in r.stmt_nodes(ctx) if isinstance(n.ast, ast.Assign) and any(isinstance(t, ast.Name) for t in n.ast.targets) and isinstance(n.ast.value, ast.Call) and seg(n.ast.value.func) in ("tuple", "list") and n.ast.value.args and isinstance(n.ast.value.args[0], ast.Name) and n.ast.value.args[0].id == param]
     chk.floor(rule, f"`{param} = tuple({param})` in {qual}", len(mats), 1)
     bad = []
     for n in r.stmt_nodes(ctx):
@@ -4495,6 +4512,34 @@ def _filters_in(expr):
     return [c for c in ast.walk(expr) if isinstance(c, (ast.ListComp, ast.GeneratorExp, ast.SetComp)) and any(g.ifs for g in c.generators)]
 
 
+def _loop_filters(fn, expr):
+    """selections written as `for x in S: if c: L.append(x)` behind the names of an expression (through plain assignments):
+    returned as comprehension nodes `[x for x in S if c]` so that they are read like the others"""
+    names, work = set(), [x.id for x in ast.walk(expr) if isinstance(x, ast.Name)]
+    while work:
+        nm = work.pop()
+        if nm in names:
+            continue
+        names.add(nm)
+        for a in ast.walk(fn):
+            if isinstance(a, ast.Assign) and any(nm in _target_names(t) for t in a.targets):
+                work += [x.id for x in ast.walk(a.value) if isinstance(x, ast.Name)]
+    out = []
+    for lp in ast.walk(fn):
+        if not isinstance(lp, ast.For):
+            continue
+        for cond in ast.walk(lp):
+            if not isinstance(cond, ast.If):
+                continue
+            for x in ast.walk(cond):
+                if isinstance(x, ast.Call) and isinstance(x.func, ast.Attribute) and x.func.attr == "append" and isinstance(x.func.value, ast.Name) and x.func.value.id in names and x.args:
+                    comp = ast.ListComp(elt=x.args[0], generators=[ast.comprehension(target=lp.target, iter=lp.iter, ifs=[cond.test], is_async=0)])
+                    ast.copy_location(comp, cond)
+                    ast.fix_missing_locations(comp)
+                    out.append(comp)
+    return out
+
+
 def _returned_filters(r: R, qual: str, depth: int = 2):
     """filtered selections in what a helper returns (followed into the helpers it calls)"""
     fi = r.prog.funcs.get(qual)
@@ -4506,7 +4551,7 @@ def _returned_filters(r: R, qual: str, depth: int = 2):
     for ret in ast.walk(fn):
         if isinstance(ret, ast.Return) and ret.value is not None:
             e = resolve_reaching(fn, ret.value, ret, pos=pos)
-            out += [(qual, c) for c in _filters_in(e)]
+            out += [(qual, c) for c in _filters_in(e) + _loop_filters(fn, ret.value)]
             if depth > 0:
                 for c in ast.walk(e):
                     if isinstance(c, ast.Call) and isinstance(c.func, ast.Attribute):
@@ -4531,8 +4576,8 @@ def count_pair(r: R, chk, qual: str, rule="COUNT-PAIR"):
         st = _stmt_map(fn).get(id(c))
         vec = resolve_reaching(fn, c.args[0], st, pos=pos)
         pts = resolve_reaching(fn, c.args[1], st, pos=pos)
-        fv = [f for f in _filters_in(vec)]
-        fp = [(qual, f) for f in _filters_in(pts)]
+        fv = [f for f in _filters_in(vec) + _loop_filters(fn, c.args[0])]
+        fp = [(qual, f) for f in _filters_in(pts) + _loop_filters(fn, c.args[1])]
         for call in ast.walk(pts):
             if isinstance(call, ast.Call) and isinstance(call.func, ast.Attribute) and seg(call.func).startswith("heavy."):
                 for q2 in r.prog.funcs:
@@ -4862,6 +4907,36 @@ def _nonneg(e) -> bool:
     return False
 
 
+def _nonneg_name(fn, name, at, pos) -> bool:
+    """`name` read at `at` is non-negative: going back through the statements before it, every assignment is of a non-negative
+    value and every update is `+=` / `*=` of a non-negative value (also inside loops and branches), down to a plain assignment"""
+    def targets_name(s_):
+        return (isinstance(s_, ast.Assign) and any(name in _target_names(t) for t in s_.targets)) or (isinstance(s_, ast.AugAssign) and name in _target_names(s_.target))
+
+    def value_ok(s_):
+        v = resolve_reaching(fn, s_.value, s_, pos=pos)
+        return _nonneg(v) or _nonneg(s_.value)
+
+    cur = at
+    while cur is not None and id(cur) in pos:
+        stmts, i, up = pos[id(cur)]
+        for s_ in reversed(stmts[:i]):
+            if isinstance(s_, ast.Assign) and targets_name(s_):
+                return value_ok(s_)
+            if isinstance(s_, ast.AugAssign) and targets_name(s_):
+                if not (isinstance(s_.op, (ast.Add, ast.Mult)) and value_ok(s_)):
+                    return False
+                continue
+            inner = [x for x in ast.walk(s_) if x is not s_ and targets_name(x)]
+            for x in inner:
+                if isinstance(x, ast.AugAssign) and not isinstance(x.op, (ast.Add, ast.Mult)):
+                    return False
+                if not value_ok(x):
+                    return False
+        cur = up
+    return False
+
+
 def error_nonneg(r: R, chk, qual: str, rule="ERROR-NONNEG", floor: int = 2):
     """P^T E P is non-negative in exact arithmetic (E is a Gram residual), and a rounding residue of either sign in floats.  What the
     fit returns is compared with the tolerance and reported as a squared distance: it is an absolute value (or a maximum / a sum of
@@ -4876,6 +4951,8 @@ def error_nonneg(r: R, chk, qual: str, rule="ERROR-NONNEG", floor: int = 2):
         n += 1
         e = resolve_reaching(fn, ret.value, ret, pos=pos)
         ok = _nonneg(e)
+        if not ok and isinstance(ret.value, ast.Name):
+            ok = _nonneg_name(fn, ret.value.id, ret, pos)
         chk.ob(rule, f"{qual}: `{seg(ret, 30)}` returns an absolute value", ok, loc=f"{fi.module}.py:{ret.lineno}",
                detail="" if ok else f"{qual}: the value of `{seg(ret, 30)}` is `{seg(e, 90)}`: not an absolute value (or a maximum / sum of absolute values) on this path — the entries of P^T E P carry the sign of their rounding residue, so for a curve that lies in the target space with float knots the returned 'squared error' is negative (-1.9e-17): the returned error is not non-negative",
                func=qual, construct="signed error returned")
@@ -4914,9 +4991,15 @@ def interp_count(r: R, chk, module: str = "curves", rule="INTERP-COUNT", floor: 
             n += 1
             guarded = all(any(isinstance(i, ast.IfExp) and "degree" in seg(i.test) and any(y is k for y in ast.walk(i)) for i in ast.walk(e)) for k in knots)
             if not guarded:
-                # statement form: the call (or the assignment of the nodes) sits under `if ... degree ...`
+                # statement form: the call, or an assignment of `.knots` that reaches it, sits under `if ... degree ...`
                 for x in ast.walk(fn):
-                    if isinstance(x, ast.If) and "degree" in seg(x.test) and any(y is c for s in x.body + x.orelse for y in ast.walk(s)):
+                    if not (isinstance(x, ast.If) and "degree" in seg(x.test)):
+                        continue
+                    inside = [y for s in x.body + x.orelse for y in ast.walk(s)]
+                    if any(y is c for y in inside):
+                        guarded = True
+                    if any(isinstance(y, ast.Assign) and any(isinstance(z, ast.Attribute) and z.attr == "knots" for z in ast.walk(y.value)) for y in inside) \
+                            and any(isinstance(i, ast.IfExp) and isinstance(i.test, ast.Name) and i.test.id == "__path__" and any(y is k for k in knots for y in ast.walk(i)) for i in ast.walk(e)):
                         guarded = True
             chk.ob(rule, f"{q}: `{seg(c, 40)}` passes the knots as nodes under a test of the degree", guarded, loc=f"{fi.module}.py:{c.lineno}",
                    detail="" if guarded else f"{q}: `{seg(c, 50)}` passes `{seg(knots[0], 30)}` as interpolation nodes whatever the degree: a vector of degree 0 has one knot more than control points, the constrained fit raises NotImplementedError — reached from A == B (both operands are refined to the common vector through this call) for piecewise constant curves on different knot vectors, where == and != raise instead of answering",
@@ -4940,6 +5023,14 @@ def sample_count(r: R, chk, qual: str = "knotspace.GeneratorKnotVector.random", 
             continue
         st = _stmt_map(fn).get(id(c))
         e = resolve_reaching(fn, c.args[1], st, params=tuple(fi.params), pos=pos)
+        # a list filled by `for x in SAMPLE: L.append(f(x))`: the sample is what the loop walks
+        extra = []
+        if isinstance(c.args[1], ast.Name):
+            for lp in ast.walk(fn):
+                if isinstance(lp, ast.For) and any(isinstance(x, ast.Call) and isinstance(x.func, ast.Attribute) and x.func.attr in ("append", "extend") and isinstance(x.func.value, ast.Name) and x.func.value.id == c.args[1].id for b in lp.body for x in ast.walk(b)):
+                    extra.append(resolve_reaching(fn, lp.iter, lp, params=tuple(fi.params), pos=pos))
+        if extra:
+            e = ast.Tuple(elts=[e] + extra, ctx=ast.Load())
         n += 1
         slices = [x for x in ast.walk(e) if isinstance(x, ast.Subscript) and isinstance(x.slice, ast.Slice)]
         capped = []
@@ -5007,46 +5098,85 @@ def error_covers(r: R, chk, qual: str = "curves.Curve.fit_curve", rule="ERROR-CO
     """`Y = T @ X` replaces X by its least-squares image; `X^T E X` is the squared distance between the two.  In the branch that
     fits homogeneous coordinates both the weighted points AND the weights are replaced: the error handed to the tolerance gate
     contains the quadratic form of E for each of them — with the weights left out, a rational curve whose weighted points are
-    reducible but whose weights are not is 'reduced' without error."""
+    reducible but whose weights are not is 'reduced' without error.  (T, E) are the two results of the least-squares operator
+    (`T, E = spline2spline(...)` / `func2func(...)`), under whatever names — followed through copies and `np.array`."""
     fi = r.prog.func(qual)
     fn = fi.node
     pos = _block_defs(fn)
-    keep = ("materror", "transmat")
+    tnames, enames = set(), set()
+    for a in ast.walk(fn):
+        if isinstance(a, ast.Assign) and len(a.targets) == 1 and isinstance(a.targets[0], ast.Tuple) and len(a.targets[0].elts) == 2 and isinstance(a.value, ast.Call) \
+                and all(isinstance(t, ast.Name) for t in a.targets[0].elts) and any(seg(a.value.func).endswith(sfx) for sfx in ("spline2spline", "func2func", "lstsq")):
+            tnames.add(a.targets[0].elts[0].id)
+            enames.add(a.targets[0].elts[1].id)
+    grow = True
+    while grow:
+        grow = False
+        for a in ast.walk(fn):
+            if isinstance(a, ast.Assign) and len(a.targets) == 1 and isinstance(a.targets[0], ast.Name):
+                v = a.value
+                while isinstance(v, ast.Call) and seg(v.func) in ("np.array", "np.asarray", "tuple") and v.args:
+                    v = v.args[0]
+                if isinstance(v, ast.Name):
+                    for grp in (tnames, enames):
+                        if v.id in grp and a.targets[0].id not in grp:
+                            grp.add(a.targets[0].id)
+                            grow = True
+    keep = tuple(tnames | enames)
+    loops = [l for l in ast.walk(fn) if isinstance(l, ast.For) and isinstance(l.iter, (ast.Tuple, ast.List)) and isinstance(l.target, ast.Name)]
 
     def text(e, at):
         return seg(resolve_reaching(fn, e, at, keep=keep, params=tuple(fi.params), pos=pos), 400)
 
-    def products(e):
-        """(matrix name, operand) of np.dot(M, X) / M @ X"""
+    def with_matrix(e, names):
+        """operands that meet one of the matrices `names` in a call / a matrix product"""
         out = []
         for c in ast.walk(e):
-            if isinstance(c, ast.Call) and seg(c.func) in ("np.dot", "np.matmul", "np.tensordot") and len(c.args) >= 2 and isinstance(c.args[0], ast.Name):
-                out.append((c.args[0].id, c.args[1]))
-            if isinstance(c, ast.BinOp) and isinstance(c.op, ast.MatMult) and isinstance(c.left, ast.Name):
-                out.append((c.left.id, c.right))
+            if isinstance(c, ast.Call):
+                args = list(c.args) + [k.value for k in c.keywords]
+                if any(isinstance(a, ast.Name) and a.id in names for a in args):
+                    out += [a for a in args if not (isinstance(a, ast.Name) and a.id in names)]
+            if isinstance(c, ast.BinOp) and isinstance(c.op, ast.MatMult) and isinstance(c.left, ast.Name) and c.left.id in names:
+                out.append(c.right)
         return out
 
     n = 0
+    sm = _stmt_map(fn)
     for ret in ast.walk(fn):
         if not (isinstance(ret, ast.Return) and ret.value is not None):
             continue
-        stmts, idx, up = pos[id(ret)]
-        block = stmts[:idx]
+        # the statements before the return, in its own block and the enclosing ones
+        before, cur = [], ret
+        while cur is not None and id(cur) in pos:
+            stmts, idx, up = pos[id(cur)]
+            before = list(stmts[:idx]) + before
+            cur = up
         fitted = []
-        for st in block:
+        for st in before:
             if isinstance(st, ast.Assign):
-                for m_, x in products(st.value):
-                    if m_ == "transmat":
+                for x in with_matrix(st.value, tnames):
+                    if not isinstance(x, ast.Constant):
                         fitted.append((st, x, text(x, st)))
         if not fitted:
             continue
         err = resolve_reaching(fn, ret.value, ret, keep=keep, params=tuple(fi.params), pos=pos)
-        measured = {seg(x, 400) for m_, x in products(err) if m_ == "materror"}
+        measured = {seg(x, 400) for x in with_matrix(err, enames)}
+        for st in before:
+            for node in ast.walk(st):
+                if not isinstance(node, (ast.Call, ast.BinOp)):
+                    continue
+                for x in with_matrix(node, enames) if not any(isinstance(ch, (ast.Call, ast.BinOp)) and ch is not node and with_matrix(ch, enames) for ch in ast.iter_child_nodes(node)) else []:
+                    at = sm.get(id(node)) or st
+                    lp = next((l for l in loops if isinstance(x, ast.Name) and l.target.id == x.id and any(y is node for b in l.body for y in ast.walk(b))), None)
+                    if lp is not None:
+                        measured |= {text(el, lp) for el in lp.iter.elts}
+                    else:
+                        measured.add(text(x, at))
         for st, x, tx in fitted:
             n += 1
             ok = tx in measured
             chk.ob(rule, f"{qual}: the error returned at line {ret.lineno} measures `{seg(x, 30)}` (fitted at line {st.lineno})", ok, loc=f"{fi.module}.py:{st.lineno}",
-                   detail="" if ok else f"{qual}: `{seg(st, 50)}` replaces `{seg(x, 30)}` by its least-squares image, but the error returned at line {ret.lineno} (`{seg(err, 80)}`) contains no quadratic form `materror` of it: what the fit changes in `{seg(x, 30)}` is not counted, so a reduction that changes the curve through that quantity alone (a rational curve whose weighted points are degree-reducible while its weights are not) is accepted with error 0 — degree_decrease / knot_remove / clean change the function silently",
+                   detail="" if ok else f"{qual}: `{seg(st, 50)}` replaces `{seg(x, 30)}` by its least-squares image, but the error returned at line {ret.lineno} (`{seg(err, 80)}`) contains no quadratic form of the error matrix for it: what the fit changes in `{seg(x, 30)}` is not counted, so a reduction that changes the curve through that quantity alone (a rational curve whose weighted points are degree-reducible while its weights are not) is accepted with error 0 — degree_decrease / knot_remove / clean change the function silently",
                    func=qual, construct=f"error ignores the fitted {seg(x, 20)}")
     chk.floor(rule, f"fitted quantities in {qual}", n, floor)
     return n
